@@ -347,7 +347,7 @@ Proof.
   assert (Hmb : N.of_nat (length mb) < 2147483648).
   { destruct ver; cbn [enc_meta meta_small] in *.
     - inversion Emeta; subst. exact Hms.
-    - pose proof (enc_meta2_small m mb Emeta). lia. }
+    - pose proof (enc_meta2_small m mb Emeta) as Hb2. clear - Hb2. lia. }
   assert (Hlen0 : length hdr0 = length hdr).
   { unfold hdr0, hdr. rewrite !enc_header_length, Htl, Ht0l. reflexivity. }
   assert (Hhl : N.of_nat (length hdr) = 28 + N.of_nat (length mb) + 10 * N.of_nat (length ps)).
@@ -458,3 +458,76 @@ Theorem seal_succeeds ver m w :
 Proof. intros [mb E]. unfold seal. rewrite E. eauto. Qed.
 
 End P.
+
+(* ---------- the model's fuel never decides an answer ---------- *)
+Lemma take_lengths n : forall bs a r, take n bs = Some (a, r) -> length bs = (n + length r)%nat.
+Proof.
+  induction n as [|n IH]; intros bs a r H; cbn [take] in H.
+  - inversion H; subst. reflexivity.
+  - destruct bs as [|b bs]; [discriminate|]. destruct (take n bs) as [[a' r']|] eqn:E; [|discriminate].
+    inversion H; subst. cbn [length]. rewrite (IH bs a' r E). lia.
+Qed.
+
+Lemma read_str1_shorter bs r : read_str1 bs = Some r -> (length r + 4 <= length bs)%nat.
+Proof.
+  unfold read_str1. destruct (take 4 bs) as [[lb r0]|] eqn:E; [|discriminate].
+  apply take_lengths in E. destruct (max_i32 <? le_dec lb); [discriminate|].
+  destruct (le_dec lb <=? N.of_nat (length r0)); [|discriminate].
+  intros H; inversion H; subst. rewrite skipn_length. lia.
+Qed.
+
+Lemma skip_kvs1_fuel_enough : forall fuel cnt bs, (length bs < fuel)%nat -> skip_kvs1 fuel cnt bs <> OutOfFuel.
+Proof.
+  induction fuel as [|fuel IH]; intros cnt bs Hf; [lia|]. cbn [skip_kvs1].
+  destruct (cnt =? 0); [discriminate|].
+  destruct (read_str1 bs) as [r1|] eqn:E1; [|discriminate].
+  destruct (read_str1 r1) as [r2|] eqn:E2; [|discriminate].
+  apply read_str1_shorter in E1, E2. apply IH. lia.
+Qed.
+
+Lemma open_fuel_enough ver R : open_ ver R <> OutOfFuel.
+Proof.
+  unfold open_.
+  destruct (R 0 1); [|discriminate]. destruct (R 0 4); [|discriminate].
+  destruct (R 4 _) as [buf|]; [|discriminate].
+  destruct (take magic_len buf) as [[mg b1]|]; [|discriminate].
+  destruct (negb _); [discriminate|].
+  destruct (take 8 b1) as [[vb b2]|]; [|discriminate].
+  destruct (negb _); [discriminate|].
+  assert (Hm : skip_meta ver b2 <> OutOfFuel).
+  { destruct ver; cbn [skip_meta].
+    - unfold skip_meta1. destruct (take 8 b2) as [[cb r]|]; [|discriminate]. apply skip_kvs1_fuel_enough. lia.
+    - unfold skip_meta2. destruct b2 as [|n r]; [discriminate|]. destruct (skip_kvs2 _ r); discriminate. }
+  destruct (skip_meta ver b2) as [b3| |]; [|discriminate|congruence].
+  destruct (take 8 b3) as [[cb b4]|]; [|discriminate].
+  pose proof (parse_tab_fuel_enough (S (length b4)) (le_dec cb) b4 [] ltac:(lia)) as Hp.
+  destruct (parse_tab _ _ b4 []); [discriminate|discriminate|congruence].
+Qed.
+
+Lemma le_dec_bound bs : Forall (fun b => b < 256) bs -> le_dec bs < 256 ^ N.of_nat (length bs).
+Proof.
+  induction 1 as [|b r Hb Hr IH]; cbn [le_dec length]; [cbn; lia|].
+  rewrite Nat2N.inj_succ, N.pow_succ_r'. lia.
+Qed.
+
+Lemma file_reader_bytes f off len bs :
+  Forall (fun b => b < 256) f -> file_reader f off len = Some bs -> Forall (fun b => b < 256) bs.
+Proof.
+  intros Hf H. unfold file_reader in H. destruct (off + len <=? N.of_nat (length f)); [|discriminate].
+  inversion H; subst. apply Forall_forall. intros x Hx. rewrite Forall_forall in Hf. apply Hf.
+  apply firstn_In in Hx. eapply skipn_In; eauto.
+Qed.
+
+Theorem file_has_fuel_enough (hash : list N -> N) ver f s :
+  Forall (fun b => b < 256) f -> file_has hash ver f s <> OutOfFuel.
+Proof.
+  intros Hf. unfold file_has. pose proof (open_fuel_enough ver (file_reader f)) as Ho.
+  destruct (open_ ver (file_reader f)) as [rd| |]; [|discriminate|congruence].
+  unfold has. destruct (lookup_off ver (r_tab rd) (prefix s)) as [off|]; [|discriminate].
+  destruct (two63 <=? off); [discriminate|].
+  destruct (file_reader f (r_base rd + off) 4) as [nb|] eqn:E; [|discriminate].
+  cbv zeta. apply bsearch_fuel_enough. change (N.of_nat search_fuel) with 64.
+  pose proof (file_reader_bytes f _ _ nb Hf E) as Hb. apply le_dec_bound in Hb.
+  apply file_reader_some in E. rewrite E in Hb. change (N.of_nat (N.to_nat 4)) with 4 in Hb.
+  change (256 ^ 4) with 4294967296 in Hb. lia.
+Qed.
